@@ -292,6 +292,7 @@ def main(pid, argv=None):
     vps = {"C01": (4, 2, 0), "C02": (3, 2, 0), "C03": (3, 1, 0), "C04": (2, 4, 3), "C05": (2, 1, 0),
            "C08": (3, 1, 1), "C17": (2, 2, 1)}[pid]
     budget = {"C05": 120, "C03": 10, "C02": 30}.get(pid, 12)
+    doc_level = False
     if ck.replay:
         rp = json.load(open(ck.replay))["replay"]
 
@@ -305,9 +306,14 @@ def main(pid, argv=None):
             return o
 
         rp = unhex(rp)
-        cases = cr.build_cases(rng, 0, extra_descs=[(rp["params"], rp.get("is_response", False), None)])
-        c = cases[0]
-        if c.obj is not None:
+        if "params" not in rp:
+            # a violation found by one of the document-level oracles (shipped example, multiplexer document, CLI, corpora)
+            cases = []
+            doc_level = True
+        else:
+            cases = cr.build_cases(rng, 0, extra_descs=[(rp["params"], rp.get("is_response", False), None)])
+        c = cases[0] if cases else None
+        if c is not None and c.obj is not None:
             if "value" in rp:
                 c.encs.append(dict(value=rp["value"], req=rp.get("req"), stream="replay",
                                    impl=cc.impl_encode(c.obj, rp["value"], rp.get("req"))))
@@ -483,13 +489,14 @@ def main(pid, argv=None):
         if pid == "C17":
             check_modes(ck, c)
     ck.coverage["disagreements"] = ndis
-    if pid == "C05" and not ck.replay:
+    if pid == "C05" and (not ck.replay or doc_level):
         somersault_decode(ck)
-    if pid == "C17" and not ck.replay:
+        unmodelled_composites_decode(ck)
+    if pid == "C17" and (not ck.replay or doc_level):
         cli_mode_restore(ck)
-    if pid == "C08" and not ck.replay:
+    if pid == "C08" and (not ck.replay or doc_level):
         condensed_mask_corpus(ck)
-    if pid == "C02" and not ck.replay:
+    if pid == "C02" and (not ck.replay or doc_level):
         wide_integer_corpus(ck)
     ck.assumptions = [
         "round-trip oracles exempt value assignments for which ODX promises no round trip: objects with a BIT-MASK "
@@ -725,6 +732,71 @@ def check_modes(ck, c):
 
 
 # ---------------------------------------------------------------------------
+UNMODELLED_DOC = ('<?xml version="1.0" encoding="UTF-8"?><ODX MODEL-VERSION="2.2.0" xmlns:xsi="http://www.w3.org/2001/XMLSchema-instance">'
+ '<DIAG-LAYER-CONTAINER ID="DLC"><SHORT-NAME>DLC</SHORT-NAME><BASE-VARIANTS><BASE-VARIANT ID="BV"><SHORT-NAME>BV</SHORT-NAME>'
+ '<DIAG-DATA-DICTIONARY-SPEC><DATA-OBJECT-PROPS>'
+ '<DATA-OBJECT-PROP ID="u8"><SHORT-NAME>u8</SHORT-NAME><COMPU-METHOD><CATEGORY>IDENTICAL</CATEGORY></COMPU-METHOD>'
+ '<DIAG-CODED-TYPE BASE-DATA-TYPE="A_UINT32" xsi:type="STANDARD-LENGTH-TYPE"><BIT-LENGTH>8</BIT-LENGTH></DIAG-CODED-TYPE>'
+ '<PHYSICAL-TYPE BASE-DATA-TYPE="A_UINT32"/></DATA-OBJECT-PROP></DATA-OBJECT-PROPS>'
+ '<STRUCTURES>'
+ '<STRUCTURE ID="s2"><SHORT-NAME>s2</SHORT-NAME><PARAMS><PARAM xsi:type="VALUE"><SHORT-NAME>k</SHORT-NAME><BYTE-POSITION>0</BYTE-POSITION>'
+ '<DOP-REF ID-REF="u8"/></PARAM><PARAM xsi:type="VALUE"><SHORT-NAME>d</SHORT-NAME><BYTE-POSITION>1</BYTE-POSITION><DOP-REF ID-REF="u8"/></PARAM></PARAMS></STRUCTURE>'
+ '<STRUCTURE ID="item"><SHORT-NAME>item</SHORT-NAME><PARAMS><PARAM xsi:type="VALUE"><SHORT-NAME>m</SHORT-NAME><DOP-REF ID-REF="mux"/></PARAM></PARAMS></STRUCTURE>'
+ '<STRUCTURE ID="item2"><SHORT-NAME>item2</SHORT-NAME><PARAMS><PARAM xsi:type="VALUE"><SHORT-NAME>m</SHORT-NAME><DOP-REF ID-REF="mux2"/></PARAM></PARAMS></STRUCTURE>'
+ '</STRUCTURES>'
+ '<END-OF-PDU-FIELDS><END-OF-PDU-FIELD ID="eop"><SHORT-NAME>eop</SHORT-NAME><BASIC-STRUCTURE-REF ID-REF="item"/></END-OF-PDU-FIELD>'
+ '<END-OF-PDU-FIELD ID="eop2"><SHORT-NAME>eop2</SHORT-NAME><BASIC-STRUCTURE-REF ID-REF="item2"/></END-OF-PDU-FIELD></END-OF-PDU-FIELDS>'
+ '<MUXS>'
+ '<MUX ID="mux"><SHORT-NAME>mux</SHORT-NAME><BYTE-POSITION>0</BYTE-POSITION><SWITCH-KEY><BYTE-POSITION>0</BYTE-POSITION><BIT-POSITION>0</BIT-POSITION>'
+ '<DATA-OBJECT-PROP-REF ID-REF="u8"/></SWITCH-KEY><DEFAULT-CASE><SHORT-NAME>dflt</SHORT-NAME></DEFAULT-CASE>'
+ '<CASES><CASE><SHORT-NAME>c1</SHORT-NAME><STRUCTURE-REF ID-REF="s2"/><LOWER-LIMIT>1</LOWER-LIMIT><UPPER-LIMIT>1</UPPER-LIMIT></CASE></CASES></MUX>'
+ '<MUX ID="mux2"><SHORT-NAME>mux2</SHORT-NAME><BYTE-POSITION>1</BYTE-POSITION><SWITCH-KEY><BYTE-POSITION>0</BYTE-POSITION><BIT-POSITION>0</BIT-POSITION>'
+ '<DATA-OBJECT-PROP-REF ID-REF="u8"/></SWITCH-KEY>'
+ '<CASES><CASE><SHORT-NAME>c1</SHORT-NAME><STRUCTURE-REF ID-REF="s2"/><LOWER-LIMIT>1</LOWER-LIMIT><UPPER-LIMIT>2</UPPER-LIMIT></CASE></CASES></MUX>'
+ '</MUXS></DIAG-DATA-DICTIONARY-SPEC>'
+ '<REQUESTS>'
+ '<REQUEST ID="rq1"><SHORT-NAME>rq1</SHORT-NAME><PARAMS><PARAM xsi:type="CODED-CONST"><SHORT-NAME>sid</SHORT-NAME><BYTE-POSITION>0</BYTE-POSITION>'
+ '<CODED-VALUE>34</CODED-VALUE><DIAG-CODED-TYPE BASE-DATA-TYPE="A_UINT32" xsi:type="STANDARD-LENGTH-TYPE"><BIT-LENGTH>8</BIT-LENGTH></DIAG-CODED-TYPE></PARAM>'
+ '<PARAM xsi:type="VALUE"><SHORT-NAME>f</SHORT-NAME><BYTE-POSITION>1</BYTE-POSITION><DOP-REF ID-REF="eop"/></PARAM></PARAMS></REQUEST>'
+ '<REQUEST ID="rq2"><SHORT-NAME>rq2</SHORT-NAME><PARAMS><PARAM xsi:type="CODED-CONST"><SHORT-NAME>sid</SHORT-NAME><BYTE-POSITION>0</BYTE-POSITION>'
+ '<CODED-VALUE>35</CODED-VALUE><DIAG-CODED-TYPE BASE-DATA-TYPE="A_UINT32" xsi:type="STANDARD-LENGTH-TYPE"><BIT-LENGTH>8</BIT-LENGTH></DIAG-CODED-TYPE></PARAM>'
+ '<PARAM xsi:type="VALUE"><SHORT-NAME>f</SHORT-NAME><BYTE-POSITION>1</BYTE-POSITION><DOP-REF ID-REF="eop2"/></PARAM></PARAMS></REQUEST>'
+ '<REQUEST ID="rq3"><SHORT-NAME>rq3</SHORT-NAME><PARAMS><PARAM xsi:type="CODED-CONST"><SHORT-NAME>sid</SHORT-NAME><BYTE-POSITION>0</BYTE-POSITION>'
+ '<CODED-VALUE>36</CODED-VALUE><DIAG-CODED-TYPE BASE-DATA-TYPE="A_UINT32" xsi:type="STANDARD-LENGTH-TYPE"><BIT-LENGTH>8</BIT-LENGTH></DIAG-CODED-TYPE></PARAM>'
+ '<PARAM xsi:type="VALUE"><SHORT-NAME>m</SHORT-NAME><BYTE-POSITION>1</BYTE-POSITION><DOP-REF ID-REF="mux"/></PARAM></PARAMS></REQUEST>'
+ '</REQUESTS></BASE-VARIANT></BASE-VARIANTS></DIAG-LAYER-CONTAINER></ODX>')
+
+
+def unmodelled_composites_decode(ck):
+    """C05 (oracle only) for composites the codec model does not cover: multiplexers (case with structure, default case
+    without structure = an item of zero size, no default case) as parameters and as items of end-of-PDU fields; all byte
+    strings up to length 4 (5 in the thorough tier) over a small alphabet behind the service id"""
+    import hier_common as hc
+    from odxtools.exceptions import DecodeError
+    try:
+        db = hc.load_docs([UNMODELLED_DOC])
+    except Exception as e:  # noqa
+        ck.note_broken(f"cannot load the multiplexer document: {type(e).__name__}: {e}")
+        return
+    raw = db.diag_layers[0].diag_layer_raw
+    alpha = [0x00, 0x01, 0x02, 0x03, 0xFF]
+    tails = cr.small_strings(alpha, 4 if ck.tier == "quick" else 5)
+    n = 0
+    for rq in raw.requests:
+        sid = bytes(rq.coded_const_prefix())
+        for t in tails:
+            m = sid + t
+            n += 1
+            r, e, _ = cc.guarded(lambda: rq.decode(m), timeout=3)
+            ck.count(("mux", rq.short_name, m))
+            if e is not None and not isinstance(e, DecodeError):
+                what = "does not terminate" if isinstance(e, cc.Hang) else f"raised {type(e).__name__}: {e}"
+                ck.violation(f"decoding {m.hex()} with request {rq.short_name} (end-of-PDU field of multiplexer items / multiplexer) {what}",
+                             {"document": "harness/codec_checks.py UNMODELLED_DOC", "request": rq.short_name, "msg": m.hex()})
+                break
+    ck.coverage["multiplexer_messages"] = n
+
+
 def somersault_decode(ck):
     """C05 on the shipped example database: layer-level decoding of prefixes, mutations and short strings"""
     import odxtools
